@@ -293,6 +293,7 @@ func (e *Engine) verifyFunc(pkgPath, key string) (fx *FuncCtx, err error) {
 	for _, ax := range fx.axioms(env) {
 		st.assume(ax)
 	}
+	env.atEntry = true
 	for _, rq := range fc.Requires {
 		var side []string
 		env.side = &side
@@ -302,6 +303,7 @@ func (e *Engine) verifyFunc(pkgPath, key string) (fx *FuncCtx, err error) {
 		}
 		st.assume(t)
 	}
+	env.atEntry = false
 	fx.canary(st, "entry", fn.Pos())
 	entry := st.clone()
 	entry.atlock = nil
@@ -1826,6 +1828,7 @@ func (e *Engine) verifyEnv(pc *PkgContracts, fc *FuncContract, key string) (fx *
 		}
 		st.assume(t)
 	}
+	env.atEntry = true
 	for _, rq := range fc.Requires {
 		var side []string
 		env.side = &side
@@ -1835,6 +1838,7 @@ func (e *Engine) verifyEnv(pc *PkgContracts, fc *FuncContract, key string) (fx *
 		}
 		st.assume(t)
 	}
+	env.atEntry = false
 	fx.canary(st, "entry", token.NoPos)
 	old := copyMap(st.heap)
 	genv := fx.specEnv(st, st.heap, old)
